@@ -326,6 +326,44 @@ theorem stash_pop_working (d d1 : Db) (hd : d.WF) (hw : RootWF d.ws.working) (hs
         show (d1.setWs ⟨W, moveTables added W H, none⟩).ws.staged = moveTables added W H
         rw [this]
 
+/-- **stash_pop with nothing staged.**  Given the known finding (the stash stores one root, pop re-stages
+only the tables that were staged as new), the exact identity the property asks for holds when the staged
+root equals HEAD before the push — unstaged edits of tracked tables, dropped tables and untracked tables
+only: push then pop restores working *and* staged contents and the stash list.  With staged changes the
+staged root afterwards is HEAD plus the staged-new tables (`stash_pop_working`), i.e. it is restored iff
+that equals the old staged root. -/
+theorem stash_pop_unstaged (d d1 : Db) (hd : d.WF) (hw : RootWF d.ws.working) (hs : RootWF d.ws.staged)
+    (hst : d.ws.staged = d.headRoot) (hpush : d.stashPush = (.ok, d1)) :
+    ∃ d2, d1.stashPop = (.ok, d2) ∧ d2.ws.working = d.ws.working ∧ d2.ws.staged = d.ws.staged ∧
+      d2.stashes = d.stashes ∧ d2.headId = d.headId := by
+  have hnew : ∀ n, get d.ws.staged n = none → get d.ws.working n ≠ none → get d.headRoot n = none := by
+    intro n h _; rw [← hst]; exact h
+  obtain ⟨d2, h1, h2, h3, h4, h5⟩ := stash_pop_working d d1 hd hw hs hnew hpush
+  refine ⟨d2, h1, h2, ?_, h3, h4⟩
+  rw [h5]
+  have hempty : (changedTables d.headRoot (moveTables (trackedChanged d.ws) d.ws.working d.ws.staged)).filter
+      (fun n => !(has d.headRoot n)) = [] := by
+    apply List.filter_eq_nil_iff.mpr
+    intro n hn
+    have hne := (mem_changedTables _ _ n).mp hn
+    simp only [Bool.not_eq_true', Bool.not_eq_false]
+    cases hh : has d.headRoot n with
+    | true => rfl
+    | false =>
+      exfalso
+      apply hne
+      have hH : get d.headRoot n = none := by simpa [has] using hh
+      rw [(get_moveTables (trackedChanged d.ws) d.ws.working d.ws.staged hs.1 n).1]
+      have hnt : n ∉ trackedChanged d.ws := by
+        intro ht
+        have := (List.mem_filter.mp ht).2
+        rw [hst, hh] at this
+        cases this
+      simp only [hnt, if_false]
+      rw [hst]
+  rw [hempty]
+  simp [moveTables, hst]
+
 /-- the property's wording: push then pop restores the working *and staged* contents exactly -/
 def stash_pop_full : Prop :=
   ∀ (d d1 d2 : Db), d.stashPush = (.ok, d1) → d1.stashPop = (.ok, d2) →
